@@ -38,6 +38,7 @@ ASSUMPTIONS = [
 ]
 
 _CACHE = {}
+_REPLAY_PERM = {}
 HERE = os.path.dirname(os.path.dirname(os.path.abspath(__file__)))
 
 
@@ -113,7 +114,19 @@ def _evaluate_projects(ctx, plan, tag, deadline_left):
             root, sb = _write_config(ctx, base, P, cfg, rng)
             seed = {"A": 0, "B": 1, "C": 2, "D": 0}[cfg]
             by_seed[seed].append((pi, cfg, {"root": root, "sandbox": sb, "out": os.path.join(base, "out-%s.json" % cfg), "cap": 300,
-                                            "bids": cfg in ("A", "B", "C"), "project": None}))
+                                            "bids": cfg in ("A", "B", "C"), "project": rec["project"] if cfg == "A" else None}))
+        # M: the same project, every package computed from its own inputs (no reuse of earlier visits of a recipe)
+        root, _ = _write_config(ctx, base, P, "M", rng)
+        by_seed[1].append((pi, "M", {"root": root, "sandbox": False, "out": os.path.join(base, "out-M.json"), "cap": 300,
+                                     "bids": False, "project": None, "memo": False}))
+        # R: dependency lists that forward nothing to their siblings in another order
+        Q, affected = _REPLAY_PERM.get("q") or P.permute_deps(rng)
+        rec["permuted"] = sorted(affected)
+        rec["permuted_project"] = Q.to_json()
+        if affected:
+            root, _ = _write_config(ctx, base, Q, "R", rng)
+            by_seed[2].append((pi, "R", {"root": root, "sandbox": False, "out": os.path.join(base, "out-R.json"), "cap": 300,
+                                         "bids": False, "project": None}))
         for k, (e, Q) in enumerate(edits):
             cfg = "E%d" % k
             root, sb = _write_config(ctx, base, Q, cfg, rng)
@@ -187,12 +200,13 @@ def check_project(ctx, rec, report=True):
         # Build-Id ignores which variant of a weakly used tool is installed
         for b in s.get("bid", []):
             if b["id"] != b["id_other_weak_tools"]:
-                viol("Build-Id of %s changes when another variant of a weakly used tool (%s) is installed" % (s["key"], s["tooldep_weak"]),
+                viol("Build-Id of %s changes when another variant of a weakly used tool (declared weak in the recipe: %s; "
+                     "Step.toolDepWeak: %s) is installed" % (s["key"], s.get("spec_weak_tools"), s["tooldep_weak"]),
                      {"kind": "weaktool", "project": rec["project"], "key": s["key"]}, "build-id-depends-on-weak-tool-variant")
                 break
     # B, C and the id-irrelevant edits agree with A
     for c, r in R.items():
-        if c in ("A", "D") or not _usable(r):
+        if c in ("A", "D", "M", "R") or not _usable(r):
             if c not in ("A", "D") and isinstance(r, dict) and "error" in r and not c.startswith("E"):
                 viol("project is accepted in configuration A but rejected in %s: %s" % (c, r["error"]),
                      {"kind": "config", "project": rec["project"], "cfg": c}, "accepted-depends-on-" + c)
@@ -214,6 +228,51 @@ def check_project(ctx, rec, report=True):
                 viol("%s of %s differs between configuration A and %s (path / file creation order / hash seed / timestamps / environment)"
                      % (what, bad[:3], c), {"kind": "config", "project": rec["project"], "cfg": c},
                      "id-depends-on-location-or-order-or-hashseed")
+    # M: ids do not depend on whether a package was reused from an earlier visit of its recipe (how often / in which
+    # order it is reached); R: nor on the order of dependencies that forward nothing to each other - except for the
+    # packages whose own dependency list was permuted and everything that consumes them
+    da0 = {s["key"]: s for s in A["steps"]}
+    M = R.get("M")
+    if _usable(M):
+        for s in M["steps"]:
+            a = da0.get(s["key"])
+            if report:
+                ctx.case((pf, s["key"], "M"))
+            if a is not None and a["valid"] and s["valid"] and a["vid"] != s["vid"]:
+                viol("Variant-Id of %s is %s, but %s when every package is computed from its own inputs (no reuse of an earlier "
+                     "visit of the recipe): the id depends on the order / number of times the package is reached"
+                     % (s["key"], a["vid"], s["vid"]), {"kind": "reuse", "project": rec["project"], "key": s["key"]},
+                     "id-depends-on-package-reuse-order")
+                break
+        if report:
+            ctx.count("config", "M:compared")
+    Rr = R.get("R")
+    if _usable(Rr) and rec.get("permuted"):
+        perm = set(rec["permuted"])
+        dr = {s["key"]: s for s in Rr["steps"]}
+        aff = {}
+
+        def affected(k):
+            if k in aff:
+                return aff[k]
+            aff[k] = True
+            s = dr.get(k) or da0.get(k)
+            t = s is None or s["pkg"] in perm or any(affected(x) for x in s["dep_keys"])
+            if not t and k in da0 and k in dr:
+                t = any(affected(x) for x in da0[k]["dep_keys"])
+            aff[k] = t
+            return t
+        for k in sorted(set(da0) & set(dr)):
+            t = affected(k)
+            if report:
+                ctx.count("dep_order", "legitimately changed" if t else "compared")
+                ctx.case((pf, k, "R"))
+            if not t and da0[k]["valid"] and dr[k]["valid"] and da0[k]["vid"] != dr[k]["vid"]:
+                viol("Variant-Id of %s depends on the order of the dependencies of %s (%s / %s) although neither its package nor "
+                     "anything it consumes was touched" % (k, sorted(perm), da0[k]["vid"], dr[k]["vid"]),
+                     {"kind": "deporder", "project": rec["project"], "permuted_project": rec["permuted_project"],
+                      "permuted": rec["permuted"], "key": k}, "id-depends-on-dependency-order")
+                break
     # sandbox on/off
     D = R.get("D")
     if _usable(D) and not rec["uses_query"]:
@@ -431,7 +490,12 @@ def replay(ctx, case):
     edits = []
     if k == "edit":
         edits = [(case["edit"], G.Project.from_json(case["edited"]))]
-    rec = _evaluate_projects(ctx, [(P, edits)], "replay", -1)[0]
+    if k == "deporder":
+        _REPLAY_PERM["q"] = (G.Project.from_json(case["permuted_project"]), set(case["permuted"]))
+    try:
+        rec = _evaluate_projects(ctx, [(P, edits)], "replay", -1)[0]
+    finally:
+        _REPLAY_PERM.clear()
     for what, c, sig in check_project(ctx, rec, report=False):
         ctx.violation(what, c, sig)
 
